@@ -231,6 +231,9 @@ class Portfolio(IncrementalTrackingSolver):
         if self._ext_solver and self._ext_solver.is_alive():
             self._ext_solver.terminate()
             _debug("Previous solver killed")
+        # The winner of the previous race is gone: until a new race has
+        # a winner there is nobody to ask for a value or a model
+        self._ext_solver = None
 
     def _exit(self):
         self._close_existing()
